@@ -263,12 +263,13 @@ def d4_rewind(ctx, rm: REModel):
     # resume pushes the replay plan (with a None response) on top of the user's plan
     rs = rm.m("resume")
     seq = list(A.walk_stmts(rs.node.body))
-    i_rw = next((i for i, s in enumerate(seq) if isinstance(s, ast.Assign) and A.find_calls(s, "self._rewind")), None)
-    var = A.norm(seq[i_rw].targets[0]) if i_rw is not None else None
-    i_push = next((i for i, s in enumerate(seq) if A.norm(s) == f"self._plan_stack.append({var})"), None)
+    # the plan pushed is what _rewind returned (named first or passed directly)
+    i_push = next((i for i, s in enumerate(seq) if isinstance(s, ast.Expr) and isinstance(s.value, ast.Call) and A.call_name(s.value) == "self._plan_stack.append"
+                   and len(s.value.args) == 1 and A.norm(q.expand(rs.node, s.value.args[0])) == "self._rewind()"), None)
+    i_rw = next((i for i, s in enumerate(seq) if A.find_calls(s, "self._rewind")), None)
     i_resp = next((i for i, s in enumerate(seq) if A.norm(s) == "self._response_stack.append(None)"), None)
     i_task = next((i for i, s in enumerate(seq) if A.find_calls(s, "self._resume_task")), None)
-    ok = None not in (i_rw, i_push, i_resp, i_task) and i_rw < i_push < i_task and i_resp < i_task
+    ok = None not in (i_rw, i_push, i_resp, i_task) and i_rw <= i_push < i_task and i_resp < i_task
     ctx.ob("C04.D4-rewind-shape", cname(rs, None, "resume pushes the replay plan and a None response before restarting the task"), ok,
            "" if ok else "resume no longer replays the cached messages before continuing the plan", where=where(rs, rs.node))
     # suspension: helper plan order
